@@ -157,6 +157,41 @@ for v in naive + aware + structs:
 for s in (0, 1, 1616898600, 1636263000, 2**31, 4294967295, 4294967296, 1616898600123):
     c, d = decode.timestamp(s.to_bytes(8, 'big'))
     out.append([c, d.isoformat(), str(d.utcoffset()), d.tzinfo is datetime.timezone.utc])
+# every route by which a time value reaches the wire, against the stated reading (struct_time / naive: as if UTC;
+# aware: the absolute instant) - also for struct_times that carry a zone of their own (tm_gmtoff) and for local ones
+import struct
+from pamqp import commands
+carrying = [time.struct_time((2021, 3, 28, 2, 30, 0, 6, 87, 0, 'EST', -18000)), time.struct_time((2021, 7, 1, 12, 0, 0, 3, 182, 1, 'XDT', 19800)),
+            time.localtime(86400), time.localtime(1636263000), time.localtime(1616898600)]
+folded = []
+try:
+    import zoneinfo
+    for zone, args in (('America/New_York', (2021, 11, 7, 1, 30, 0, 250000)), ('Europe/Berlin', (2021, 10, 31, 2, 30, 0, 1)),
+                       ('Australia/Lord_Howe', (2021, 4, 4, 1, 45, 0, 500000))):
+        for fold in (0, 1):
+            folded.append(datetime.datetime(*args, tzinfo=zoneinfo.ZoneInfo(zone), fold=fold))
+except Exception:
+    pass
+routes = []
+for v in structs + carrying + naive[:5] + aware[:6] + folded:
+    if isinstance(v, time.struct_time):
+        want = calendar.timegm(v)
+    elif v.tzinfo is None:
+        want = calendar.timegm(v.timetuple())
+    else:
+        want = calendar.timegm(v.utctimetuple())
+    if not 0 <= want < 2 ** 64:
+        continue
+    w = struct.pack('>Q', want)
+    got = []
+    for f in (lambda: encode.timestamp(v), lambda: encode.encode_table_value(v)[1:], lambda: encode.field_table({'t': v})[-8:],
+              lambda: encode.field_array([v])[-8:], lambda: commands.Basic.Properties(timestamp=v).marshal()[-8:]):
+        try:
+            got.append(f() == w)
+        except Exception as exc:
+            got.append(type(exc).__name__)
+    routes.append(got)
+out.append(routes)
 print(json.dumps(out))
 ''' % replay.REPO
     results = {}
@@ -171,6 +206,16 @@ print(json.dumps(out))
             job = {'target': 'time-zone comparison', 'args': [z]}
             viol.append(_violation(prop, 'encode.timestamp / decode.timestamp under TZ=%s' % z, job,
                                    'identical to TZ=%s' % zones[0], {'this': results[z][:400], 'reference': base[:400]}))
+    for z in zones:
+        if not results[z].startswith('['):
+            continue
+        routes = json.loads(results[z])[-1]
+        bad = [(i, r) for i, r in enumerate(routes) if any(x is not True for x in r)]
+        if bad:
+            job = {'target': 'time-zone comparison', 'args': [z]}
+            viol.append(_violation(prop, 'time value routes under TZ=%s' % z, job,
+                                   'every route (timestamp, table value, table, array, properties) emits the as-if-UTC / absolute instant',
+                                   {'value index and per-route result': bad[:4]}, against='the stated reading of time values'))
     n = len(json.loads(base)) if base.startswith('[') else 0
     return {'violations': viol, 'coverage': {'bounded_pipeline_checks': [
         {'what': 'timestamp codecs in child processes under TZ settings %s' % zones, 'inputs': n * len(zones),
@@ -230,6 +275,15 @@ def decode_budget(prop, tier, rng):
         m[7 + 4 + 5:7 + 4 + 9] = struct.pack('>I', 0x08000000)      # the arguments table itself
         frames.append(bytes(m))
     frames = frames[:400]
+    # names: long runs of legal characters ending in an illegal one (nothing on the decode path may take time
+    # super-linear in the name, e.g. a backtracking pattern match)
+    for k in (16, 24, 32, 48, 64, 120, 250):
+        for tail in (b'!', b'\xc3\xa9', b'a'):
+            name = b'a' * k + tail
+            qd = struct.pack('>I', 0x0032000A) + b'\x00\x00' + bytes([len(name)]) + name + b'\x00' + b'\x00\x00\x00\x00'
+            ed = struct.pack('>I', 0x0028000A) + b'\x00\x00' + bytes([len(name)]) + name + b'\x06direct\x00' + b'\x00\x00\x00\x00'
+            for payload in (qd, ed):
+                frames.append(b'\x01\x00\x01' + struct.pack('>I', len(payload)) + payload + b'\xce')
     # deep nesting: a value that fails to decode at the bottom of d nested tables / arrays (work must stay linear in the
     # input, not multiply per level), and the intact version
     for d in (4, 8, 12, 16, 20, 24):
@@ -278,7 +332,7 @@ def decode_budget(prop, tier, rng):
 SESSION_KINDS = {
     'marshal': ('C01', 'C04', 'C10', 'C12', 'C16'), 'views': ('C19', 'C16', 'C12'), 'default': ('C16', 'C14', 'C06'),
     'header': ('C16', 'C02', 'C06'), 'unmarshal': ('C05', 'C01', 'C02', 'C16', 'C09'), 'table': ('C03', 'C12', 'C16', 'C10'),
-    'scalar': ('C03', 'C11', 'C12', 'C16', 'C10'), 'texts': ('C16',),
+    'scalar': ('C03', 'C11', 'C12', 'C16', 'C10'), 'texts': ('C16',), 'remarshal': ('C13', 'C04', 'C12', 'C16', 'C10'),
 }
 
 
@@ -321,6 +375,20 @@ def _session_jobs(rng, n_per_class):
         attrs = {f.name: value(m, f) for f in m.fields}
         jobs.append(('views', {'target': 'pyvc.probe.session_views',
                                'args': [m.name, {'__dict__': [[k, values.encode(v)] for k, v in attrs.items()]}]}))
+        if m.fields:
+            changes = {}
+            for f in m.fields[:3]:
+                v = attrs[f.name]
+                if f.wire == 'bit':
+                    changes[f.name] = not v
+                elif f.wire in ('octet', 'short', 'long', 'longlong'):
+                    changes[f.name] = 7 if v != 7 else 8
+                elif f.wire in ('shortstr', 'longstr'):
+                    changes[f.name] = rng.choice(['changed', 'bad name!', 'x' * 300])
+            if changes:
+                jobs.append(('remarshal', {'target': 'pyvc.probe.session_remarshal', 'args': [
+                    m.name, {'__dict__': [[k, values.encode(v)] for k, v in attrs.items()]},
+                    {'__dict__': [[k, values.encode(v)] for k, v in changes.items()]}, 1]}))
         jobs.append(('texts', {'target': 'pyvc.probe.session_texts',
                                'args': [m.name, {'__dict__': [[k, values.encode(v)] for k, v in attrs.items()]}]}))
         jobs.append(('default', {'target': 'pyvc.probe.session_default', 'args': [m.name]}))
@@ -342,13 +410,18 @@ def _session_jobs(rng, n_per_class):
         bad['bad'] = rng.choice([2 ** 70, -2 ** 70])       # no integer wire type holds it: the encode fails part-way
         jobs.append(('table', {'target': 'pyvc.probe.session_table', 'args': [values.encode(bad)]}))
         jobs.append(('table', {'target': 'pamqp.encode.field_table', 'args': [values.encode(t)]}))
+        nested = dict(t)
+        nested['nest'] = {'inner': [1, 'two', rng.choice([2 ** 70, -2 ** 70])]}
+        jobs.append(('table', {'target': 'pyvc.probe.session_table_repair', 'args': [values.encode(nested), ['nest', 'inner']]}))
         jobs.append(('table', {'target': 'pyvc.probe.decode_table', 'args': [values.encode(ref.enc_table(t))]}))
     D = decimal.Decimal
     scalars = [True, 1.0, D('1'), False, 0.0, -0.0, 1, 0, D('2.5'), D('2.50'), D('7.0'), D('7.00'), 255, 256, -1, 2 ** 31, 'x', '']
     for v in scalars + scalars[::-1]:
         jobs.append(('scalar', {'target': 'pamqp.encode.encode_table_value', 'args': [values.encode(v)]}))
-    for v in [D('2.5'), D('2.50'), D('7.00'), D('7.0'), D('-0.010')]:
+    for v in [D('2.5'), D('2.50'), D('7.00'), D('7.0'), D('-0.010'), D('123456.7'), D('21474836.47'), D('-1234567.891')]:
         jobs.append(('scalar', {'target': 'pamqp.encode.decimal', 'args': [values.encode(v)]}))
+    for raw in (b'D\x01\x00\x12\xd6\x87', b'D\x02\x7f\xff\xff\xff', b'D\x00\x00\x00\x00\x01'):
+        jobs.append(('scalar', {'target': 'pyvc.probe.decode_value', 'args': [values.encode(raw)]}))
     for legacy in (False, True):
         for n in (0, 200, 40000, -40000, 2 ** 31, 2 ** 32 - 1, -129):
             jobs.append(('scalar', {'target': 'pamqp.encode.table_integer', 'args': [n],
@@ -382,49 +455,89 @@ def session_history(prop, tier, rng):
     from concurrent.futures import ThreadPoolExecutor
     iso = [dict(j, isolate=True, wall_s=5) for _, j in jobs]
     chunks = [iso[k::8] for k in range(8)]
-    with ThreadPoolExecutor(9) as ex:
-        hist_f = ex.submit(replay.native_calls, [jobs[i][1] for i in seq], 900)
-        parts = list(ex.map(lambda c: replay.native_calls(c, 900), chunks))
-        hist = hist_f.result()
-    fresh = [None] * len(iso)
-    for k, part in enumerate(parts):
-        fresh[k::8] = part
+    # variants: interpreter-wide settings that must not change any result (logging) or under which the history clause
+    # must hold just the same (a small decimal context precision, warnings as errors)
+    variants = [('default', None, 'default'), ('logging at DEBUG', {'logging': 'DEBUG'}, 'default')]
+    if tier == 'thorough' or prop == 'C16':        # (C16 is the property that states this clause: all variants on every run)
+        variants += [('logging disabled', {'logging': 'disabled'}, 'default'),
+                     ('decimal context precision 5', {'decimal_prec': 5}, 'same'),
+                     ('warnings as errors', {'warnings': 'error'}, 'same')]
+
+    def fresh_under(setup):
+        with ThreadPoolExecutor(8) as ex:
+            parts = list(ex.map(lambda c: replay.native_calls(c, 900, setup), chunks))
+        out = [None] * len(iso)
+        for k, part in enumerate(parts):
+            out[k::8] = part
+        return out
+
+    with ThreadPoolExecutor(len(variants) + 1) as ex:
+        hist_f = {name: ex.submit(replay.native_calls, [jobs[i][1] for i in seq], 900, setup) for name, setup, _ in variants}
+        fresh_default = fresh_under(None)
+        hists = {name: f.result() for name, f in hist_f.items()}
     viol, checked = [], 0
     reported = set()
-    for pos, (i, obs) in enumerate(zip(seq, hist)):
-        kind, job = jobs[i]
-        exp = fresh[i]
-        if kind not in mine or i in reported or exp.get('outcome') not in ('return', 'raise') or \
-                obs.get('outcome') not in ('return', 'raise', 'budget'):
-            continue
-        checked += 1
-        if _same_outcome(exp, obs):
-            continue
-        reported.add(i)
-        # shrink: one earlier call of the session followed by this one, in a child of their own
-        prefix = [jobs[k][1] for k in seq[:pos]]
-        culprit = None
-        seen = set()
-        for k in reversed(seq[:pos]):
-            if k in seen:
+
+    def must_hold_failures(obs):
+        if obs.get('outcome') != 'return':
+            return []
+        try:
+            val = values.decode(obs['value'])
+        except Exception:
+            return []
+        mh = val.get('must_hold') if isinstance(val, dict) else None
+        return [k for k, ok in (mh or {}).items() if ok is not True]
+
+    for name, setup, against in variants:
+        fresh = fresh_default if against == 'default' else fresh_under(setup)
+        hist = hists[name]
+        for pos, (i, obs) in enumerate(zip(seq, hist)):
+            kind, job = jobs[i]
+            exp = fresh[i]
+            if kind not in mine or (i, name) in reported or i in {r for r, _ in reported if _ == 'default'}:
                 continue
-            seen.add(k)
-            if len(seen) > 150:
+            if exp.get('outcome') not in ('return', 'raise') or obs.get('outcome') not in ('return', 'raise', 'budget'):
+                continue
+            checked += 1
+            broken = must_hold_failures(obs)
+            if _same_outcome(exp, obs) and not broken:
+                continue
+            reported.add((i, name))
+            sequence = None
+            if not broken:
+                # shrink: one earlier call of the session followed by this one, in a child of their own
+                seen = set()
+                for k in reversed(seq[:pos]):
+                    if k in seen:
+                        continue
+                    seen.add(k)
+                    if len(seen) > 150:
+                        break
+                    r = replay.native_calls([{'isolate': True, 'sequence': [jobs[k][1], job]}], 120, setup)[0]
+                    if r.get('outcome') == 'sequence' and not _same_outcome(exp, r['results'][1]):
+                        sequence = [jobs[k][1], job]
+                        break
+                if sequence is None:
+                    alone = replay.native_calls([dict(job, isolate=True)], 120, setup)[0]
+                    sequence = [job] if not _same_outcome(exp, alone) else [jobs[k][1] for k in seq[:pos]] + [job]
+            else:
+                sequence = [job]
+            rjob = dict(job, isolate=True, sequence=sequence)
+            if setup:
+                rjob['setup'] = setup
+            expected = ('every entry of must_hold is true (failed: %s)' % broken) if broken else \
+                       ('the outcome of the same call in a fresh child%s: %s'
+                        % (' under the default settings' if against == 'default' and setup else '', json.dumps(exp)[:300]))
+            viol.append(_violation(prop, job['target'] + (' [%s]' % name if setup else ''), rjob, expected, obs,
+                                   against='the same call in a fresh interpreter'))
+            if len(viol) >= 5:
                 break
-            r = replay.native_calls([{'isolate': True, 'sequence': [jobs[k][1], job]}], timeout=120)[0]
-            if r.get('outcome') == 'sequence' and not _same_outcome(exp, r['results'][1]):
-                culprit = jobs[k][1]
-                break
-        sequence = [culprit, job] if culprit else prefix + [job]
-        v = _violation(prop, job['target'], dict(job, isolate=True, sequence=sequence),
-                       'the outcome of the same call in a fresh child: %s' % json.dumps(exp)[:300], obs,
-                       against='the same call in a fresh interpreter')
-        viol.append(v)
         if len(viol) >= 5:
             break
     return {'violations': viol, 'coverage': {'bounded_pipeline_checks': [
-        {'what': 'API session in one process (%d calls of %d distinct: marshal of every method class, mapping views after repr/str, '
-                 'default constructions, content headers, frame decodes of a grammar corpus with results scribbled on, failing and '
-                 'valid table encodes, equal-valued scalars of different types, both switch values): each call compared with the '
-                 'same call in a forked child where no call of the session has run' % (len(seq), len(jobs)),
+        {'what': 'API session in one process (%d calls of %d distinct: marshal of every method class, re-marshal after attribute '
+                 'changes, mapping views, repr/str, default constructions, content headers, frame decodes of a grammar corpus with '
+                 'results scribbled on, failing / repaired / valid table encodes, equal-valued scalars of different types, both '
+                 'switch values): each call compared with the same call in a forked child where no call of the session has run; '
+                 'repeated under %s' % (len(seq), len(jobs), [v[0] for v in variants]),
          'inputs': checked, 'kinds_checked_for_this_property': sorted(mine), 'failures': len(viol), 'bounded': True}]}}
